@@ -248,7 +248,7 @@ func c07Strings(w *run.Worker) {
 	// every escape form in full (longer than the exhaustive bound)
 	extra := []string{`\a\b\f\n\r\t\v\\`, `\x41\x7f\xff\x00`, `\101\377\000`, `\400`, `é日`, `\U0001F600`, `\U00110000`, `\ud800`, `\udfff`, ``,
 		`\U0000d800`, `\x4`, `\x4g`, `\u12`, `\u123g`, `\U0001F60`, `\8`, `\18`, `\1`, `\12`, `\c`, `\ `, `\é`, `\X41`, `a\`, `\"`, `\'`, "\\`", `é日本`, "\t", "a\rb", "\uFFFD", "a\uFFFDb\n\uFFFD", "\xef\xbf", "\U0010FFFF\u2028",
-		`\x41B\103D`, `\xAB\xaB\xFf`, `\uABCD\uabcd\uAbCd`, `\U0010FFFF`, `\U0010ffff`, `\uD7FF\uE000`, `\uDFFF`, `\U000E0000`, `\xG0`, `\x0G`, `\u00G0`, `%d \% %s`, `\u{41}`, `\N{dash}`, `\x-1`, `\u+041`, `\u 041`}
+		`\x41B\103D`, `\xAB\xaB\xFf`, `\uABCD\uabcd\uAbCd`, `\U0010FFFF`, `\U0010ffff`, `\U80000041`, `\UFFFFFFFF`, `a\UC0000062c`, `\U7FFFFFFF`, `\U00110000\x41`, `\uD7FF\uE000`, `\uDFFF`, `\U000E0000`, `\xG0`, `\x0G`, `\u00G0`, `%d \% %s`, `\u{41}`, `\N{dash}`, `\x-1`, `\u+041`, `\u 041`}
 	for _, body := range extra {
 		one(body)
 	}
